@@ -131,7 +131,9 @@ func solveAll(results []*FuncResult, workDir string, quickSec, fullSec int, all 
 				h := sha256.Sum256([]byte(j.o.Name))
 				file := filepath.Join(workDir, fmt.Sprintf("%x.smt2", h[:8]))
 				j.o.File = file
+				j.r.mu.Lock()
 				q := j.r.query(j.o, true)
+				j.r.mu.Unlock()
 				os.WriteFile(file, []byte(q), 0o644)
 				best, _ := discharge(file, quickSec, fullSec, all)
 				j.o.Result = best.result
